@@ -392,15 +392,26 @@ func (x *Exec) callFunc(env *evalEnv, n *ast.CallExpr, fn *types.Func, recvExpr 
 		// auto address / deref
 		if _, wantPtr := ptrElem(rt); wantPtr {
 			if _, isPtr := ptrElem(r.Ty); !isPtr {
-				// method with pointer receiver on addressable value: snapshot (see interior pointers)
-				st, ok := structOf(r.Ty)
-				if !ok {
-					x.fail(n.Pos(), "UNSUPPORTED receiver")
+				boxedRef := ""
+				if id, ok := ast.Unparen(recvExpr).(*ast.Ident); ok && len(recvPath) == 0 && env.info != nil {
+					if o, ok := x.lookupObj(env, id).(*types.Var); ok && x.boxed[o] {
+						// a local struct variable whose address is taken lives in the heap: &g is its box
+						boxedRef = x.st.vars[o].S
+					}
 				}
-				ref := x.allocObj()
-				x.storeStruct(ref, r, st)
-				x.note("pointer-receiver call on a value at " + posStr(x.v.fset, n.Pos()) + ": receiver copied into a fresh object (writes through the receiver are not propagated back)")
-				r = Val{ref, rt}
+				if boxedRef != "" {
+					r = Val{boxedRef, rt}
+				} else {
+					// method with pointer receiver on another addressable value: snapshot (see interior pointers)
+					st, ok := structOf(r.Ty)
+					if !ok {
+						x.fail(n.Pos(), "UNSUPPORTED receiver")
+					}
+					ref := x.allocObj()
+					x.storeStruct(ref, r, st)
+					x.note("pointer-receiver call on a value at " + posStr(x.v.fset, n.Pos()) + ": receiver copied into a fresh object (writes through the receiver are not propagated back)")
+					r = Val{ref, rt}
+				}
 			}
 		} else if el, isPtr := ptrElem(r.Ty); isPtr {
 			x.nilCheck(env, n.Pos(), r)
@@ -632,6 +643,26 @@ func (x *Exec) newFrame(cu *FuncUnit, con *Contract, top bool) *frame {
 					}
 				}
 			}
+			// g.M() with a pointer-receiver method on an addressable struct variable takes &g implicitly
+			if call, ok := nd.(*ast.CallExpr); ok {
+				if se, ok := ast.Unparen(call.Fun).(*ast.SelectorExpr); ok {
+					if sel, ok := cu.Pkg.TypesInfo.Selections[se]; ok && sel.Kind() == types.MethodVal {
+						if fn, ok := sel.Obj().(*types.Func); ok {
+							if rv := fn.Type().(*types.Signature).Recv(); rv != nil {
+								if _, isPtr := rv.Type().(*types.Pointer); isPtr {
+									if id, ok := ast.Unparen(se.X).(*ast.Ident); ok {
+										if o, ok := cu.Pkg.TypesInfo.ObjectOf(id).(*types.Var); ok && o.Pkg() != nil && o.Parent() != o.Pkg().Scope() {
+											if _, vIsPtr := o.Type().Underlying().(*types.Pointer); !vIsPtr {
+												x.boxed[o] = true
+											}
+										}
+									}
+								}
+							}
+						}
+					}
+				}
+			}
 			return true
 		})
 	}
@@ -678,6 +709,20 @@ func (x *Exec) applyContract(env *evalEnv, n *ast.CallExpr, cu *FuncUnit, con *C
 	sig := fn.Type().(*types.Signature)
 	if con.Trusted {
 		x.trustedUsed[x.v.unitName(cu)] = true
+	}
+	// a postcondition that promises fresh objects / arrays is contradictory for the caller unless the contract also says
+	// that the callee allocates (the caller's allocation counter would not move): refuse it instead of verifying dead code
+	hasAlloc, usesFresh := false, (*Clause)(nil)
+	for _, cl := range con.Clauses {
+		if cl.Kind == "allocates" {
+			hasAlloc = true
+		}
+		if (cl.Kind == "ensures" || cl.Kind == "assumes") && strings.Contains(cl.Text, "fresh(") {
+			usesFresh = cl
+		}
+	}
+	if usesFresh != nil && !hasAlloc {
+		panic(evalError{fmt.Sprintf("%s:%d: BINDING: contract of %s promises fresh(...) but has no `allocates` clause", usesFresh.File, usesFresh.Line, con.Key)})
 	}
 	ce := &evalEnv{pkg: cu.Pkg.Types, bound: map[string]Val{}, spec: true, prefix: env.prefix}
 	if recv != nil && sig.Recv() != nil {
@@ -778,6 +823,9 @@ func (x *Exec) applyContract(env *evalEnv, n *ast.CallExpr, cu *FuncUnit, con *C
 				continue
 			}
 			for _, tn := range splitList(cl.Text) {
+				if tn == "arrays" {
+					continue // backing arrays of slices: only the allocation counter moves
+				}
 				var o types.Object
 				if i := strings.Index(tn, "."); i > 0 {
 					ps := cu.Pkg.Types.Scope()
@@ -1162,7 +1210,8 @@ func (x *Exec) appendBid(s Val) string {
 		return x.ctx.slBid(s)
 	}
 	b := x.ctx.Fresh("bid", "Int")
-	x.st.assume("(or (= " + b + " " + x.ctx.slBid(s) + ") (and (>= " + b + " " + x.st.alloc + ")))")
+	// a nil slice has no array: appending to it always allocates
+	x.st.assume("(or (and (not " + x.ctx.slNil(s) + ") (= " + b + " " + x.ctx.slBid(s) + ")) (>= " + b + " " + x.st.alloc + "))")
 	na := x.ctx.Fresh("alloc", "Int")
 	x.st.assume("(> " + na + " " + b + ")")
 	x.st.assume("(>= " + na + " " + x.st.alloc + ")")
